@@ -822,6 +822,9 @@ func selectLits(p *packages.Package, fd *ast.FuncDecl, sel string) []*ast.FuncLi
 					if id, ok := y.(*ast.Ident); ok && id.Name == want {
 						found = true
 					}
+					if bl, ok := y.(*ast.BasicLit); ok && bl.Value == want {
+						found = true // a literal, written with its quotes: if:"init"
+					}
 					return !found
 				})
 			}
